@@ -98,9 +98,79 @@ def _ieval(e, r):
     raise AnalysisError(f"C18: padding expression not recognised: {norm(e)}")
 
 
+def _cstr(v):
+    """str constant carried by a symbolic value (bytes are decoded as latin-1)."""
+    if v.kind == "const" and isinstance(v.a, str):
+        return v.a
+    if v.kind == "const" and isinstance(v.a, bytes):
+        return v.a.decode("latin-1")
+    return None
+
+
+def _charmap_of(stage):
+    """Character map of a text/bytes substitution stage: ({char: replacement}, {deleted chars}) or None."""
+    n = stage.name
+    if n == ".replace" and len(stage.args) == 2 and not stage.kwargs:
+        a, b = _cstr(stage.args[0]), _cstr(stage.args[1])
+        if a is not None and b is not None and len(a) == 1 and len(b) <= 1:
+            return ({a: b}, set()) if b else ({}, {a})
+        return None
+    if n in (".rstrip", ".strip") and len(stage.args) == 1 and _cstr(stage.args[0]) == "=":
+        return ({}, {"="})  # '=' only occurs at the end of base64 text: stripping it there deletes all of it
+    if n == ".translate" and len(stage.args) == 1:
+        t = stage.args[0]
+        if t.kind == "call" and t.a in ("str.maketrans", "bytes.maketrans") and 2 <= len(t.b) <= 3:
+            x, y = _cstr(t.b[0]), _cstr(t.b[1])
+            z = _cstr(t.b[2]) if len(t.b) == 3 else ""
+            if x is None or y is None or z is None or len(x) != len(y):
+                return None
+            return (dict(zip(x, y)), set(z))
+        return None
+    return None
+
+
+URLSAFE_ENC = {"+": "-", "/": "_"}
+URLSAFE_DEC = {"-": "+", "_": "/"}
+CORE = {"json.dumps", "json.loads", "zlib.compress", "zlib.decompress", "base64.b64encode", "base64.b64decode", "str.encode", "bytes.decode"}
+
+
+def canonical(stages):
+    """[(kind, payload, stage)] with kind in core / map / pad / other."""
+    out = []
+    for st in stages:
+        n = st.name
+        if n in ("base64.urlsafe_b64encode",):
+            out.append(("core", "base64.b64encode", st))
+            out.append(("map", (dict(URLSAFE_ENC), set()), st))
+        elif n in ("base64.urlsafe_b64decode",):
+            out.append(("map", (dict(URLSAFE_DEC), set()), st))
+            out.append(("core", "base64.b64decode", st))
+        elif n in ("base64.standard_b64encode",):
+            out.append(("core", "base64.b64encode", st))
+        elif n in ("base64.standard_b64decode",):
+            out.append(("core", "base64.b64decode", st))
+        elif n == ".encode":
+            out.append(("core", "str.encode", st))
+        elif n == ".decode":
+            out.append(("core", "bytes.decode", st))
+        elif n in CORE:
+            out.append(("core", n, st))
+        elif n == "pad":
+            out.append(("pad", None, st))
+        else:
+            cm = _charmap_of(st)
+            if cm is not None:
+                out.append(("map", cm, st))
+            else:
+                out.append(("other", n, st))
+    return out
+
+
 def run(repo: Repo, chk: Check):
+    from ..symstage import Interp, linearise, pad_count
     chk.rule("R18.a", "the stages of encode_data (inner to outer) and of decode_data (outer to inner) are inverse partners "
-                      "of the library inverse-pair table, with matching codecs and no behaviour-changing keyword", floor=4)
+                      "of the library inverse-pair table, applied unconditionally, with matching codecs and no behaviour-changing argument; "
+                      "nothing but codec stages touches the data", floor=4)
     chk.rule("R18.b", "the decoder's character substitutions invert the encoder's, the encoder replaces exactly + / = and "
                       "only by characters outside the base64 alphabet, so the output alphabet is [A-Za-z0-9_-]", floor=3)
     chk.rule("R18.c", "padding is restored as (-len) mod 4 '=' characters before base64 decoding", floor=1)
@@ -111,240 +181,172 @@ def run(repo: Repo, chk: Check):
     chk.saw("types", "decode_data")
     we = f"{m.path}:{enc.lineno} in encode_data"
     wd = f"{m.path}:{dec.lineno} in decode_data"
-
-    unknown = []
-
-    def body_pipeline(fn, allow_pad):
-        env = {}
-        pads = []
-        ret = None
-        for st in fn.body:
-            if isinstance(st, (ast.Import, ast.ImportFrom)) or (isinstance(st, ast.Expr) and isinstance(st.value, ast.Constant)):
+    results = {}
+    for fn, w in ((enc, we), (dec, wd)):
+        it = Interp(repo, m)
+        try:
+            val = it.run(fn)
+        except AnalysisError as e:
+            val = None
+            if not it.unknown:
+                raise
+        for st in it.unknown:
+            chk.bad("R18.a", f"types:{fn.name}:only the codec stages touch the data",
+                    f"{fn.name} contains the statement '{norm(st)[:90]}', which is not a straight-line codec stage: whatever it does to the data is not "
+                    f"provably undone by the other function", None, f"{m.path}:{st.lineno} in {fn.name}")
+        if val is None:
+            results[fn.name] = None
+            continue
+        try:
+            stages = linearise(val, fn.args.args[0].arg)
+        except AnalysisError as e:
+            msg = str(e)
+            if "different routes" in msg or "conditional" in msg:
+                chk.bad("R18.a", f"types:{fn.name}:every stage is applied unconditionally",
+                        f"{fn.name}: {msg}. A stage that is applied only for some inputs is not the inverse of an unconditional partner "
+                        f"(and a partner that guesses from the data which route was taken can guess wrong)", None, w)
+                results[fn.name] = None
                 continue
-            if isinstance(st, ast.Assign) and len(st.targets) == 1 and isinstance(st.targets[0], ast.Name):
-                env[st.targets[0].id] = _pipeline(st.value, env)
-                continue
-            if allow_pad and isinstance(st, (ast.If, ast.AugAssign)):
-                aug = st
-                cond = None
-                if isinstance(st, ast.If):
-                    if len(st.body) != 1 or st.orelse or not isinstance(st.body[0], ast.AugAssign):
-                        raise AnalysisError("decode_data: conditional statement is not the padding restoration")
-                    aug, cond = st.body[0], st.test
-                if not (isinstance(aug.target, ast.Name) and isinstance(aug.op, ast.Add)):
-                    raise AnalysisError("decode_data: augmented assignment not recognised")
-                var = aug.target.id
-                src, stg = env.get(var, (var, []))
-                env[var] = (src, stg + [Stage("pad", "pad", [aug.value], {"cond": cond} if cond is not None else {}, st)])
-                continue
-            if isinstance(st, ast.Return) and st.value is not None:
-                ret = _pipeline(st.value, env)
-                continue
-            unknown.append(st)
-        if ret is None:
-            raise AnalysisError(f"{fn.name}: no return value")
-        return ret
-
-    esrc, est = body_pipeline(enc, False)
-    dsrc, dst = body_pipeline(dec, True)
-    for st in unknown:
-        fn_ = "decode_data" if any(st is x for x in ast.walk(dec)) else "encode_data"
-        chk.bad("R18.a", f"types:{fn_}:only the codec stages touch the data",
-                f"{fn_} contains the statement '{norm(st)[:90]}', which is not one of the encoding stages: whatever it does to the data is not undone by the other function",
-                None, f"{m.path}:{st.lineno} in {fn_}")
-    chk.judge("R18.a", "types:encode_data:source is the parameter", esrc == enc.args.args[0].arg, f"pipeline starts from {esrc}", None, we)
-    chk.judge("R18.a", "types:decode_data:source is the parameter", dsrc == dec.args.args[0].arg, f"pipeline starts from {dsrc}", None, wd)
-
-    def classify(stages):
-        core, subs, pads = [], [], []
-        for s in stages:
-            if s.kind == "method" and s.name == "replace":
-                subs.append(s)
-            elif s.kind == "method" and s.name in ("rstrip", "strip") :
-                subs.append(s)
-            elif s.kind == "pad":
-                pads.append(s)
-            else:
-                core.append(s)
-        return core, subs, pads
-
-    ecore, esubs, epads = classify(est)
-    dcore, dsubs, dpads = classify(dst)
-    chk.extra["encoder_stages"] = [repr(s) for s in est]
-    chk.extra["decoder_stages"] = [repr(s) for s in dst]
-
-    # typed names: method encode/decode get a receiver type from position
-    def typed(core):
-        out = []
-        cur = None
-        for s in core:
-            if s.kind == "func":
-                out.append(s.name)
-            elif s.name == "encode":
-                out.append("str.encode")
-            elif s.name == "decode":
-                out.append("bytes.decode")
-            else:
-                out.append("?." + s.name)
-        return out
-
-    et, dt = typed(ecore), typed(dcore)
-    # base64 output is ASCII and b64decode accepts ASCII text: the encoder's text decode right
-    # after the base64 stage has the decoder's implicit str->bytes acceptance as its inverse
+            raise
+        results[fn.name] = canonical(stages)
+        chk.extra[f"{fn.name}_stages"] = [repr(s) for s in stages]
+    for fn, w in ((enc, we), (dec, wd)):
+        chk.judge("R18.a", f"types:{fn.name}:no memoising decorator", not fn.decorator_list,
+                  f"{fn.name} is wrapped by {[norm(d) for d in fn.decorator_list]}: a cached mutable result is shared between callers, so a later decode no longer equals the encoded dictionary",
+                  None, w)
+    E, D = results.get("encode_data"), results.get("decode_data")
+    if E is None or D is None:
+        return
+    for fn_, lst, w in (("encode_data", E, we), ("decode_data", D, wd)):
+        for kind, payload, st in lst:
+            if kind == "other":
+                chk.bad("R18.a", f"types:{fn_}:stage {payload}", f"{fn_} applies {st!r} to the data, which is not a stage of the inverse-pair table", None, w)
+    ecore = [(n, st) for k, n, st in E if k == "core"]
+    dcore = [(n, st) for k, n, st in D if k == "core"]
+    et, dt = [n for n, _ in ecore], [n for n, _ in dcore]
+    # base64 output is ASCII and b64decode accepts ASCII text: the encoder's text decode right after the
+    # base64 stage has the decoder's implicit str->bytes acceptance as its inverse (and vice versa for bytes maps)
     for i in range(len(et) - 1):
-        if et[i].startswith("base64.") and et[i + 1] == "bytes.decode" and "str.encode" not in dt[:1]:
-            codec = ecore[i + 1].args[0].value if ecore[i + 1].args and isinstance(ecore[i + 1].args[0], ast.Constant) else "utf-8"
+        if et[i] == "base64.b64encode" and "bytes.decode" in et[i + 1:]:
+            j = et.index("bytes.decode", i + 1)
+            st = ecore[j][1]
+            codec = (_cstr(st.args[0]) if st.args else None) or (_cstr(st.kwargs["encoding"]) if "encoding" in st.kwargs else "utf-8")
             chk.judge("R18.a", "types:encode_data:text form of base64", str(codec).lower().replace("_", "-") in ("utf-8", "utf8", "ascii", "latin-1", "latin1"),
                       f"base64 bytes are turned into text with codec {codec!r}", {"codec": codec}, we)
-            del et[i + 1]
-            del ecore[i + 1]
+            del et[j]
+            del ecore[j]
             break
+    if dt[:1] == ["str.encode"] and dt[1:2] == ["base64.b64decode"]:
+        del dt[0]
+        del dcore[0]
     want = [INVERSE.get(n, "<no inverse for %s>" % n) for n in reversed(et)]
     chk.judge("R18.a", "types:stage lists are inverse", dt == want,
               f"decoder stages {dt} are not the inverse of encoder stages {et} (expected {want})", {"encoder": et, "decoder": dt}, wd)
-    # per stage: codecs and keywords
     ascii_text = False
-    for s, n in zip(ecore, et):
-        key = f"types:encode_data:stage {n}"
+    for n, st in ecore:
         bad = []
         if n == "json.dumps":
-            ea = s.kwargs.get("ensure_ascii")
-            ascii_text = ea is None or (isinstance(ea, ast.Constant) and ea.value is True)
-            extra = set(s.kwargs) - NEUTRAL_KW["json.dumps"] - {"ensure_ascii"}
-            if extra or s.args:
+            ea = st.kwargs.get("ensure_ascii")
+            ascii_text = ea is None or (ea.kind == "const" and ea.a is True)
+            extra = set(st.kwargs) - NEUTRAL_KW["json.dumps"] - {"ensure_ascii"}
+            if extra or st.args:
                 bad.append(f"keyword(s) {sorted(extra)} / extra positional arguments may change what json.loads returns")
         elif n == "str.encode":
-            codec = _const_str(s.args[0]) if s.args else (_const_str(s.kwargs["encoding"]) if "encoding" in s.kwargs else "utf-8")
-            errors = _const_str(s.args[1]) if len(s.args) > 1 else (_const_str(s.kwargs["errors"]) if "errors" in s.kwargs else "strict")
+            codec = (_cstr(st.args[0]) if st.args else None) or (_cstr(st.kwargs["encoding"]) if "encoding" in st.kwargs else "utf-8")
+            errors = (_cstr(st.args[1]) if len(st.args) > 1 else None) or (_cstr(st.kwargs["errors"]) if "errors" in st.kwargs else "strict")
             if codec is None or codec.lower().replace("_", "-") not in ("utf-8", "utf8", "ascii"):
                 bad.append(f"codec {codec!r} is not utf-8/ascii")
             if not ascii_text and errors != "surrogatepass":
                 bad.append("text may contain lone surrogates (json.dumps(ensure_ascii=False)) and .encode() is strict: encode_data raises for such source text")
-            if codec and codec.lower() == "ascii" and not ascii_text:
-                bad.append("ascii codec on non-ascii text")
-            s._codec = (codec or "").lower().replace("_", "-").replace("utf8", "utf-8")
-        elif n == "bytes.decode":
-            codec = _const_str(s.args[0]) if s.args else "utf-8"
-            s._codec = (codec or "").lower()
-        elif n in ("zlib.compress",):
-            extra = set(s.kwargs) - NEUTRAL_KW[n]
-            if "wbits" in s.kwargs or len(s.args) > 1:
+        elif n == "zlib.compress":
+            if "wbits" in st.kwargs or len(st.args) > 1:
                 bad.append("non-default wbits/positional arguments must be mirrored by the decoder")
-        elif n.startswith("base64."):
-            if s.args or s.kwargs:
-                bad.append(f"altchars/extra arguments {[norm(a) for a in s.args]} {sorted(s.kwargs)} not mirrored by the decoder table")
-        chk.judge("R18.a", key, not bad, "; ".join(bad), {"stage": repr(s)}, we)
-    for s, n in zip(dcore, dt):
-        key = f"types:decode_data:stage {n}"
+        elif n == "base64.b64encode":
+            if (st.args or st.kwargs) and st.name == "base64.b64encode":
+                bad.append(f"altchars/extra arguments {st.args} {sorted(st.kwargs)} not mirrored by the decoder table")
+        chk.judge("R18.a", f"types:encode_data:stage {n}", not bad, "; ".join(bad), {"stage": repr(st)}, we)
+    for n, st in dcore:
         bad = []
-        if n == "json.loads" and (s.args or s.kwargs):
+        if n == "json.loads" and (st.args or st.kwargs):
             bad.append("json.loads with hooks/keywords changes the decoded value")
-        if n == "zlib.decompress" and (s.args or set(s.kwargs) - NEUTRAL_KW[n]):
-            bad.append(f"zlib.decompress is given extra arguments {[norm(a) for a in s.args]} {sorted(s.kwargs)} (wbits / max_length): it no longer returns everything zlib.compress wrote")
-        if n.startswith("base64.") and (s.args or set(s.kwargs) - NEUTRAL_KW.get(n, set())):
+        if n == "zlib.decompress" and (st.args or set(st.kwargs) - NEUTRAL_KW[n]):
+            bad.append(f"zlib.decompress is given extra arguments {st.args} {sorted(st.kwargs)} (wbits / max_length): it no longer returns everything zlib.compress wrote")
+        if n == "base64.b64decode" and st.name == "base64.b64decode" and (st.args or set(st.kwargs) - NEUTRAL_KW.get(n, set())):
             bad.append("base64 decode with altchars not used by the encoder")
         if n == "bytes.decode":
-            codec = _const_str(s.args[0]) if s.args else (_const_str(s.kwargs["encoding"]) if "encoding" in s.kwargs else "utf-8")
-            errs = _const_str(s.args[1]) if len(s.args) > 1 else (_const_str(s.kwargs["errors"]) if "errors" in s.kwargs else "strict")
+            codec = (_cstr(st.args[0]) if st.args else None) or (_cstr(st.kwargs["encoding"]) if "encoding" in st.kwargs else "utf-8")
+            errs = (_cstr(st.args[1]) if len(st.args) > 1 else None) or (_cstr(st.kwargs["errors"]) if "errors" in st.kwargs else "strict")
             if (codec or "").lower().replace("_", "-").replace("utf8", "utf-8") not in ("utf-8", "ascii"):
                 bad.append(f"codec {codec!r}")
             if errs not in ("strict", "surrogatepass"):
                 bad.append(f"errors={errs!r} silently alters undecodable text")
-        chk.judge("R18.a", key, not bad, "; ".join(bad), {"stage": repr(s)}, wd)
-    # positions: all encoder substitutions come after the base64 stage and its text decode; decoder's before b64decode
-    def index_of(stages, pred):
-        for i, s in enumerate(stages):
-            if pred(s):
-                return i
-        return -1
+        chk.judge("R18.a", f"types:decode_data:stage {n}", not bad, "; ".join(bad), {"stage": repr(st)}, wd)
 
-    ib = index_of(est, lambda s: s.kind == "func" and s.name.startswith("base64."))
-    chk.judge("R18.b", "types:encode_data:substitutions follow base64", all(est.index(s) > ib for s in esubs) and ib >= 0,
-              "a character substitution is applied before base64 encoding", None, we)
-    idb = index_of(dst, lambda s: s.kind == "func" and s.name.startswith("base64."))
-    chk.judge("R18.b", "types:decode_data:substitutions precede base64", all(dst.index(s) < idb for s in dsubs + dpads) and idb >= 0,
-              "a substitution or the padding restoration is applied after base64 decoding", None, wd)
+    # ------------------------------------------------------------ R18.b: character maps relative to the base64 stage
+    def split_maps(lst, b64name):
+        idx = [i for i, (k, n, st) in enumerate(lst) if k == "core" and n == b64name]
+        if not idx:
+            return None
+        ib = idx[0]
+        before = [(i, p) for i, (k, p, st) in enumerate(lst) if k in ("map", "pad") and i < ib]
+        after = [(i, p) for i, (k, p, st) in enumerate(lst) if k in ("map", "pad") and i > ib]
+        return ib, before, after
+    se = split_maps(E, "base64.b64encode")
+    sd = split_maps(D, "base64.b64decode")
+    if se is None or sd is None:
+        chk.bad("R18.b", "types:base64 stage present on both sides", "no base64 stage found in encoder or decoder", None, we)
+        return
+    chk.judge("R18.b", "types:encode_data:substitutions follow base64", not se[1], "a character substitution or padding change is applied before base64 encoding", None, we)
+    chk.judge("R18.b", "types:decode_data:substitutions precede base64", not sd[2], "a substitution or the padding restoration is applied after base64 decoding", None, wd)
 
-    # R18.b substitution maps
-    def submap(subs, where):
+    def compose(lst, idxs):
         mp, deleted = {}, set()
-        produced = set()
-        for s in subs:
-            if s.name != "replace" or len(s.args) != 2 or s.kwargs:
-                if s.name in ("rstrip", "strip") and len(s.args) == 1 and _const_str(s.args[0]) == "=":
-                    deleted.add("=")
-                    continue
-                raise AnalysisError(f"C18: substitution {s!r} not recognised")
-            a, b = _const_str(s.args[0]), _const_str(s.args[1])
-            if a is None or b is None or len(a) != 1 or len(b) > 1:
-                raise AnalysisError(f"C18: substitution {s!r} is not a single-character replace")
-            if a in produced:
-                chk.bad("R18.b", f"types:{where}:chained replace {a!r}", f"replace source {a!r} was produced by an earlier replace: substitutions compose", None, where)
-            if b == "":
-                deleted.add(a)
-            else:
-                mp[a] = b
-                produced.add(b)
+        for i, payload in idxs:
+            if lst[i][0] != "map":
+                continue
+            m_, d_ = payload
+            # apply after what is there: existing images are mapped further, new sources are added
+            for a in list(mp):
+                if mp[a] in d_:
+                    deleted.add(a)
+                    del mp[a]
+                elif mp[a] in m_:
+                    mp[a] = m_[mp[a]]
+            for a, b in m_.items():
+                if a not in mp and a not in deleted and a not in [v for v in mp.values()]:
+                    mp[a] = b
+                elif a not in mp and a not in deleted:
+                    mp[a] = b
+            deleted |= {c for c in d_ if c not in mp.values()} | {c for c in d_}
         return mp, deleted
-
-    emap, edel = submap(esubs, "encode_data")
-    dmap, ddel = submap(dsubs, "decode_data")
-    urlsafe_enc = any(s.kind == "func" and "urlsafe" in s.name for s in est)
-    alphabet = set(B64_ALPHABET)
-    if urlsafe_enc:
-        alphabet = (alphabet - {"+", "/"}) | {"-", "_"}
+    emap, edel = compose(E, se[2])
+    dmap, ddel = compose(D, sd[1])
+    alphabet = B64_ALPHABET
     out_alphabet = {emap.get(c, c) for c in alphabet if c not in edel}
     chk.judge("R18.b", "types:encode_data:output alphabet is URL-safe", out_alphabet <= URL_SAFE,
               f"characters {sorted(out_alphabet - URL_SAFE)} of the base64 alphabet survive into the link", {"map": emap, "deleted": sorted(edel)}, we)
     inj_bad = [f"{a!r}->{b!r}" for a, b in emap.items() if b in alphabet and b not in emap]
     chk.judge("R18.b", "types:encode_data:substitution is injective", not inj_bad and len(set(emap.values())) == len(emap),
-              f"replacement character(s) {inj_bad} already belong to the base64 alphabet: two different encodings collide", {"map": emap}, we)
+              f"replacement character(s) {inj_bad} already belong to the base64 alphabet, or two characters share one replacement: two different encodings collide", {"map": emap}, we)
     inv = {b: a for a, b in emap.items()}
     chk.judge("R18.b", "types:decode_data:substitution inverts the encoder's", dmap == inv and not ddel,
               f"decoder map {dmap} (deletes {sorted(ddel)}) is not the inverse {inv} of the encoder map", {"decoder": dmap, "inverse": inv}, wd)
-    only_pad_deleted = edel <= {"="}
-    chk.judge("R18.b", "types:encode_data:only padding is removed", only_pad_deleted, f"encoder deletes {sorted(edel)}", None, we)
+    chk.judge("R18.b", "types:encode_data:only padding is removed", edel <= {"="}, f"encoder deletes {sorted(edel)}", None, we)
 
-    # R18.c
+    # ------------------------------------------------------------ R18.c
+    dpads = [st for k, p, st in D if k == "pad"]
     if "=" in edel:
         if len(dpads) != 1:
-            chk.bad("R18.c", "types:decode_data:padding restoration", f"encoder strips '=' but decoder has {len(dpads)} padding statement(s)", None, wd)
+            chk.bad("R18.c", "types:decode_data:padding restoration", f"encoder strips '=' but decoder has {len(dpads)} padding step(s)", None, wd)
         else:
             p = dpads[0]
-            v = p.args[0]
-            ok = False
             why = ""
-            if isinstance(v, ast.BinOp) and isinstance(v.op, ast.Mult):
-                s_, cnt = (v.left, v.right) if _const_str(v.left) is not None else (v.right, v.left)
-                if _const_str(s_) == "=":
-                    cond = p.kwargs.get("cond")
-                    good = True
-                    for r in range(4):
-                        applies = True
-                        if cond is not None:
-                            if isinstance(cond, ast.BinOp) or isinstance(cond, ast.Compare) or isinstance(cond, ast.Call):
-                                if isinstance(cond, ast.Compare) and len(cond.ops) == 1 and isinstance(cond.comparators[0], ast.Constant):
-                                    l = _ieval(cond.left, r)
-                                    c = cond.comparators[0].value
-                                    applies = {ast.NotEq: l != c, ast.Gt: l > c, ast.Eq: l == c, ast.Lt: l < c, ast.GtE: l >= c, ast.LtE: l <= c}[type(cond.ops[0])]
-                                else:
-                                    applies = bool(_ieval(cond, r))
-                            else:
-                                raise AnalysisError("C18: padding condition not recognised")
-                        n = max(0, _ieval(cnt, r)) if applies else 0
-                        if n != (-r) % 4:
-                            good = False
-                            why = f"for len % 4 == {r} it appends {n} '=' instead of {(-r) % 4}"
-                    ok = good
-                else:
-                    why = "padding character is not '='"
-            else:
-                why = f"padding expression {norm(v)} not of the form '=' * n"
-            chk.judge("R18.c", "types:decode_data:padding restoration", ok, why or "padding formula wrong", {"expr": norm(v)}, wd)
+            for r in range(4):
+                n = pad_count(p.args[0], r, p.kwargs.get("cond"), p.kwargs.get("cond_selects_pad", True))
+                if n is None:
+                    raise AnalysisError(f"decode_data: padding expression {p.args[0]!r} not understood")
+                if n != (-r) % 4:
+                    why = f"for len % 4 == {r} it appends {n} '=' instead of {(-r) % 4}"
+            chk.judge("R18.c", "types:decode_data:padding restoration", not why, why or "padding formula wrong", {"expr": repr(p.args[0])}, wd)
     else:
         chk.ok("R18.c", "types:decode_data:padding kept by the encoder", None)
-    # decoder must not cache/mutate shared results: no decorator, no module state
-    for fn, w in ((enc, we), (dec, wd)):
-        chk.judge("R18.a", f"types:{fn.name}:no memoising decorator", not fn.decorator_list,
-                  f"{fn.name} is wrapped by {[norm(d) for d in fn.decorator_list]}: a cached mutable result is shared between callers, so a later decode no longer equals the encoded dictionary",
-                  None, w)
